@@ -344,7 +344,7 @@ def run(chk):
                               {"family": f, "backend": b, "key": kid, "error": [status, val]})
     evs += lazy_events
     evs.sort(key=lambda e: (e["key"], not e["provider"].startswith("passlib"), "behaviour-step" in e["provider"]))
-    wd = VERIF / "out" / "work" / "C03_trace_in"
+    wd = tlc.WORK / "C03_trace_in"
     wd.mkdir(parents=True, exist_ok=True)
     (wd / "events.json").write_text(json.dumps(evs))
     r = tlc.run("Trace_Backend", "INIT Init\nNEXT Next\n", name="C03_trace", workers=1, env={"TRACE_FILE": str(wd / "events.json")},
